@@ -19,6 +19,7 @@ import OFV.Proofs.C03Fock
 import OFV.Proofs.C03Valid
 import OFV.Proofs.C03Chemist
 import OFV.Proofs.C03WeylSpec
+import OFV.Proofs.C03Canon3
 import Mathlib.Tactic.NormNum
 
 namespace OFV.C03
@@ -206,6 +207,56 @@ theorem quad_sound_hbar_spec (hbar : GQ) (a : Op) (s out : Spec.Mono) (hs : Trim
     Spec.GV.coeff (Spec.applyOp (.quad hbar) (normalOrdered 0 (.quad hbar) a) s) out =
       Spec.GV.coeff (Spec.applyOp (.quad hbar) a s) out :=
   normalOrdered_sound_quad_spec hbar a s out hs ho
+
+/-! ## canonicity (fermions): the normal-ordered form is unique -/
+
+/-- **Normal-ordered monomials are linearly independent**: two dictionaries of distinct, valid,
+normal-ordered fermion terms with the same Spec matrix elements on all pairs of Fock basis states
+have the same coefficient for every term (missing = 0).  Proof: among the terms with different
+coefficients take one whose annihilator mask is numerically minimal and evaluate on the state
+occupying exactly its annihilated modes. -/
+theorem normal_monomials_independent_fermion (A B : Op) (wa : Dict.WF A) (wb : Dict.WF B)
+    (va : ∀ e ∈ A, ∀ f ∈ e.1, f.2 < 2) (vb : ∀ e ∈ B, ∀ f ∈ e.1, f.2 < 2)
+    (na : ∀ e ∈ A, Spec.C02.NormalOrderedF e.1) (nb : ∀ e ∈ B, Spec.C02.NormalOrderedF e.1)
+    (h : ∀ s out, Spec.melF A out s = Spec.melF B out s) :
+    ∀ t, Dict.getD A t 0 = Dict.getD B t 0 :=
+  canonicity_normal A B wa wb va vb na nb h
+
+/-- the result of `normal_ordered` on a FermionOperator: distinct keys, valid codes, normal order -/
+theorem normal_ordered_fermion_wellformed (tol : Rat) (a : Op) (hv : ∀ e ∈ a, ∀ f ∈ e.1, f.2 < 2) :
+    Dict.WF (normalOrdered tol .fermion a) ∧
+    (∀ e ∈ normalOrdered tol .fermion a, ∀ f ∈ e.1, f.2 < 2) ∧
+    (∀ e ∈ normalOrdered tol .fermion a, Spec.C02.NormalOrderedF e.1) := by
+  have hval := normalOrdered_valid tol .fermion (fun f => f.2 < 2) (fun t ht => ht) a hv
+  refine ⟨wf_normalOrdered tol .fermion a, hval, ?_⟩
+  intro e he
+  have h := normalOrdered_norm tol .fermion (fun t => Proofs.C02.Adj (okK .fermion) t) (fun t ht => ht) a e he
+  rw [← Proofs.C02.fermion_term_normal_iff e.1 (hval e he), Proofs.C02.loopBad_false_iff_adj]
+  exact Proofs.C02.adj_mono _ _ (fun l r hlr => okK_fermion_not_bad l r hlr) e.1 h
+
+/-- **Canonicity**: two FermionOperators denote the same operator (same Spec matrix elements on
+all Fock basis states) IF AND ONLY IF their normal-ordered forms have equal coefficients. -/
+theorem canonicity_fermion (a b : Op) (va : ∀ e ∈ a, ∀ f ∈ e.1, f.2 < 2) (vb : ∀ e ∈ b, ∀ f ∈ e.1, f.2 < 2) :
+    (∀ s out, Spec.melF a out s = Spec.melF b out s) ↔
+      ∀ t, Dict.getD (normalOrdered 0 .fermion a) t 0 = Dict.getD (normalOrdered 0 .fermion b) t 0 := by
+  obtain ⟨wa, va', na⟩ := normal_ordered_fermion_wellformed 0 a va
+  obtain ⟨wb, vb', nb⟩ := normal_ordered_fermion_wellformed 0 b vb
+  constructor
+  · intro h
+    apply canonicity_normal _ _ wa wb va' vb' na nb
+    intro s out
+    rw [normal_ordered_sound_melF a va, normal_ordered_sound_melF b vb, h]
+  · intro h s out
+    rw [← normal_ordered_sound_melF a va, ← normal_ordered_sound_melF b vb]
+    exact melF_congr _ _ wa wb h out s
+
+/-- idempotence as an operator statement: normal ordering twice gives the same coefficients. -/
+theorem normal_ordered_idempotent (a : Op) (va : ∀ e ∈ a, ∀ f ∈ e.1, f.2 < 2) :
+    ∀ t, Dict.getD (normalOrdered 0 .fermion (normalOrdered 0 .fermion a)) t 0 =
+      Dict.getD (normalOrdered 0 .fermion a) t 0 := by
+  obtain ⟨_, va', _⟩ := normal_ordered_fermion_wellformed 0 a va
+  exact (canonicity_fermion (normalOrdered 0 .fermion a) a va' va).1
+    (fun s out => normal_ordered_sound_melF a va out s)
 
 /-! ## `chemist_ordered` and `reorder` only rewrite the operator -/
 
